@@ -611,7 +611,7 @@ def registry_snapshot():
     snap["notrace"] = {repr(k): sorted(id(f) for f in v) for k, v in tracer.notrace_primitives.items()}
     snap["boxes"] = {repr(k): id(v) for k, v in tracer.Box.type_mappings.items()}
     snap["vspaces"] = {repr(k): id(v) for k, v in core.VSpace.mappings.items()}
-    snap["top"] = tracer.trace_stack.top
+    snap["top"] = getattr(tracer.trace_stack, "top", -1)
     return snap
 
 
